@@ -85,5 +85,7 @@ class It:
         return self.k - 1
 
 
-def it(i, n):
+def it(i, n, c=None):
+    if c is not None:
+        callout(c)  # evaluating the iterable expression is a call-out of its own
     return It(i, n)
